@@ -367,12 +367,19 @@ func GetRulePatterns(ctx *Context, rule map[string]interface{}) []map[string]int
 	if !have {
 		return nil
 	}
-	when := eventPattern.(map[string]interface{})
+	when, ok := eventPattern.(map[string]interface{})
+	if !ok {
+		// Not a usable 'when' (callers treat nil as "no 'when'").
+		return nil
+	}
 	events := make([]map[string]interface{}, 0, 1)
 	p, fromQuery := when["pattern"]
-	// ToDo: Better type processing.
 	if fromQuery {
-		events = append(events, p.(map[string]interface{}))
+		pattern, ok := p.(map[string]interface{})
+		if !ok {
+			return nil
+		}
+		events = append(events, pattern)
 	} else {
 		events = append(events, when)
 	}
